@@ -149,7 +149,7 @@ func c06SortedDistinct(xs []string) []string {
 	return out
 }
 
-const c06ConcDeadline = 60 * time.Second
+const c06ConcDeadline = 30 * time.Second
 
 func c06RunConc(c *Case) (out string, fails []Fail) {
 	cc, ok := c06ConcDecode(c)
@@ -247,7 +247,7 @@ func c06RunConc(c *Case) (out string, fails []Fail) {
 	select {
 	case <-done:
 	case <-time.After(c06ConcDeadline):
-		return "hang", append(fails, Fail{"c06:conc:hang", "concurrent sinks do not finish within 60 s: " + cc.String()})
+		return "hang", append(fails, Fail{"c06:conc:hang", "concurrent sinks do not finish within 30 s: " + cc.String()})
 	}
 	if len(panics) > 0 {
 		return "panic", append(fails, Fail{"c06:conc:panic", fmt.Sprintf("panic with concurrent sinks (%s): %s", strings.Join(panics, "; "), cc.String())})
@@ -434,6 +434,14 @@ func c06ConcGen(g *Gen) {
 		}
 		burst := r.PickInt([]int{1, 1, 2, 5, 40})
 		g.c06Conc(fmt.Sprintf("shape%d", shape), tmpl, c06DefaultNames[:n], progs, accepts, rep, per, burst)
+	}
+	// creation races: many key sets that all connections see for the first time at the same moment, few records each
+	// (cheap cases: the number of simultaneous first sights is what counts)
+	for i := 0; i < g.Pick(12, 120); i++ {
+		n := r.Range(1, 2)
+		G := r.PickInt([]int{3, 4, 6, 8})
+		progs := g.c06ConcProgs(4, G, r.PickInt([]int{30, 60, 90}), n)
+		g.c06Conc("creation", c06Templates(n)[r.Intn(2)], c06DefaultNames[:n], progs, r.Range(2, 4), 1, r.Intn(2)*2, r.PickInt([]int{1, 3}))
 	}
 	// boundary members: nothing to do, one goroutine, an empty program among busy ones
 	g.c06Conc("boundary", "$k0", c06DefaultNames[:1], g.c06ConcProgs(0, 2, 1, 1), 0, 1, 0, 1)
